@@ -8,7 +8,7 @@ from .. import gen, impl, oracle, progs, ser, stream
 
 ID = "C11"
 LEVEL = "proof"
-PROPS_MODULE = "SymmModel.Props.C11All2"
+PROPS_MODULE = "SymmModel.Props.C11All3"
 THEOREMS = [
     "SymmModel.C11.bond_index_spec_qr",
     "SymmModel.C11.bond_index_spec_svd",
@@ -38,10 +38,17 @@ THEOREMS = [
     "SymmModel.C11.svd_truncated_product_fermionic",
     "SymmModel.C11.svd_truncated_minus_discarded_fermionic",
     "SymmModel.C11.truncation_error_fermionic",
-    "SymmModel.C11.qr_reconstructs_fused"
+    "SymmModel.C11.qr_reconstructs_fused",
+    "SymmModel.C11.qr_reconstructs_tensordotF",
+    "SymmModel.C11.svd_reconstructs_tensordotF",
+    "SymmModel.C11.qr_reconstructs_tensordotF_any_mode",
+    "SymmModel.C11.svd_reconstructs_tensordotF_any_mode",
+    "SymmModel.C11.svd_reconstructs_fused",
+    "SymmModel.C11.solve_solves_fermionic_labelled",
+    "SymmModel.C11.solve_labelled_matrix_not_b"
 ]
-LEAN_FILES = ["SymmModel.Props.C11", "SymmModel.Proofs.LinalgLemmas", "SymmModel.Proofs.LinalgFactors", "SymmModel.Proofs.LinalgDense", "SymmModel.Proofs.LinalgSolve", "SymmModel.Proofs.LinalgTrunc", "SymmModel.Proofs.LinalgRecon", "SymmModel.Proofs.LinalgFermi", "SymmModel.Proofs.LinalgSolveRecon", "SymmModel.Props.C11b", "SymmModel.Props.C11All", "SymmModel.Proofs.LinalgMore", "SymmModel.Proofs.LinalgMore2", "SymmModel.Proofs.LinalgMore3", "SymmModel.Proofs.LinalgMore6", "SymmModel.Props.C11c", "SymmModel.Props.C11d", "SymmModel.Props.C11All2", "SymmModel.Proofs.ReconLabels", "SymmModel.Proofs.ReconSvd", "SymmModel.Proofs.ReconTrunc", "SymmModel.Proofs.ReconSolve", "SymmModel.Proofs.ReconEigh"]
-PLANNED = ["fermionic reconstruction through tensordot_fermionic in fused mode (abelian fused-mode qr reconstruction proved)", "eigh for matrices carrying dual labels (false: proved sign -1 example, same convention as the C10 known finding)", "solve with a labelled matrix"]
+LEAN_FILES = ["SymmModel.Props.C11", "SymmModel.Proofs.LinalgLemmas", "SymmModel.Proofs.LinalgFactors", "SymmModel.Proofs.LinalgDense", "SymmModel.Proofs.LinalgSolve", "SymmModel.Proofs.LinalgTrunc", "SymmModel.Proofs.LinalgRecon", "SymmModel.Proofs.LinalgFermi", "SymmModel.Proofs.LinalgSolveRecon", "SymmModel.Props.C11b", "SymmModel.Props.C11All", "SymmModel.Proofs.LinalgMore", "SymmModel.Proofs.LinalgMore2", "SymmModel.Proofs.LinalgMore3", "SymmModel.Proofs.LinalgMore6", "SymmModel.Props.C11c", "SymmModel.Props.C11d", "SymmModel.Props.C11All2", "SymmModel.Proofs.ReconLabels", "SymmModel.Proofs.ReconSvd", "SymmModel.Proofs.ReconTrunc", "SymmModel.Proofs.ReconSolve", "SymmModel.Proofs.ReconEigh", "SymmModel.Props.C11e", "SymmModel.Props.C11All3", "SymmModel.Proofs.Recon2Core", "SymmModel.Proofs.Recon2Modes", "SymmModel.Proofs.Recon2Solve"]
+PLANNED = ["truncated / absorbed variants through tensordotF (proved through @)", "eigh for matrices carrying dual labels (false: proved sign -1 example, same convention as the C10 known finding)"]
 RULE = ("random abelian and fermionic matrices (all symmetries; direct or obtained by fusing rank-3/4 arrays; every "
         "dualness pattern and total charge incl. odd; tall, wide, square and rank-deficient blocks; missing blocks; "
         "real/complex; pending signs): qr (plain and stabilised), svd, eigh (Hermitian charge-zero), solve. The "
